@@ -246,6 +246,59 @@ pub fn check_now(clock: Clock, t: i64) -> Result<(), String> {
     out.map_err(|m| format!("with the current local instant {:04}-{:02}-{:02} +{}us: {m}", r.y, r.m, r.d, clock.tod))
 }
 
+/// The clock reports a leap second (chrono: second 59 with 1_000_000..=1_999_999 us). The
+/// statement does not say what "now" is then; whatever a now() constructor returns must be an
+/// error or an in-range value (whole second for the Oracle-style date) inside the two seconds
+/// that start at hh:mm:59 of the clock date.
+pub fn check_now_leap(n: i32, h: u32, mi: u32, us: u32) -> Result<(), String> {
+    let r = *cal().row(n as i64).ok_or("clock date out of range")?;
+    if !(1_000_000..2_000_000).contains(&us) {
+        return Err("harness: not a leap-second microsecond count".into());
+    }
+    ad::clock_set(r.y, r.m as u32, r.d as u32, h, mi, 59, us);
+    let base = n as i128 * US_PER_DAY + pools::hms(h as i128, mi as i128, 59, 0);
+    let out = guarded(|| -> Result<(), String> {
+        let reads0 = ad::clock_reads();
+        if let Ok(d) = Date::now() {
+            if d.days() != n && d.days() != n + 1 {
+                return Err(format!("Date::now() = day {}, the clock says day {n}", d.days()));
+            }
+        }
+        let inside = |x: i128| x >= base && x < base + 2 * US_PER_SEC;
+        if let Ok(x) = Timestamp::now() {
+            let x = x.usecs() as i128;
+            if !ts_in_range(x) || !inside(x) {
+                return Err(format!("Timestamp::now() = {x} ({}), outside the timestamp range or not within the leap second's two seconds", super::c05::show(Kind::Ts, x)));
+            }
+        }
+        if let Ok(x) = OracleDate::now() {
+            let x = x.usecs() as i128;
+            if !ora_in_range(x) || !inside(x) {
+                return Err(format!("OracleDate::now() = {x}, outside the range / not a whole second / not within the leap second's two seconds"));
+            }
+        }
+        for t in [0i64, 86_399_999_999] {
+            if let Ok(x) = Timestamp::try_from(ad::time(t)) {
+                if !ts_in_range(x.usecs() as i128) {
+                    return Err(format!("Timestamp::try_from(Time {t}) = {} outside the timestamp range", x.usecs()));
+                }
+            }
+            if let Ok(x) = OracleDate::try_from(ad::time(t)) {
+                if !ora_in_range(x.usecs() as i128) {
+                    return Err(format!("OracleDate::try_from(Time {t}) = {} outside the range / not a whole second", x.usecs()));
+                }
+            }
+        }
+        if ad::clock_reads() <= reads0 {
+            return Err("harness: the clock hook was not consulted".into());
+        }
+        Ok(())
+    })
+    .unwrap_or_else(|p| Err(p));
+    ad::clock_clear();
+    out.map_err(|m| format!("with the clock at {:04}-{:02}-{:02} {h:02}:{mi:02}:59 + {us} us (a leap second): {m}", r.y, r.m, r.d))
+}
+
 pub fn eval(case: &Case) -> Verdict {
     let i = &case.i;
     let r = match case.kind.as_str() {
@@ -255,6 +308,7 @@ pub fn eval(case: &Case) -> Verdict {
             check_complete(Kind::from_index(i[0] as usize), &case.s[0], &case.s[1], i[1], &clocks)
         }
         "now" => check_now(Clock { n: i[0] as i32, tod: i[1] as i64 }, i[2] as i64),
+        "now_leap" => check_now_leap(i[0] as i32, i[1] as u32, i[2] as u32, i[3] as u32),
         k => Err(format!("unknown case kind {k}")),
     };
     match r {
@@ -400,6 +454,29 @@ pub fn run(ctx: &Ctx) -> (Stats, Report) {
                     return;
                 }
             }
+            // a leap second reported by the clock on this date
+            {
+                let (h, mi) = [(23u32, 59u32), (0, 0), (12, 30), (23, 0)][(i % 4) as usize];
+                let us = [1_000_000u32, 1_500_000, 1_999_999][(i / 4 % 3) as usize];
+                st.evaluations += 1;
+                st.class("clock-in-a-leap-second");
+                if let Err(m) = check_now_leap(r.n, h, mi, us) {
+                    st.fail(i, Case::new(P, "now_leap", vec![r.n as i128, h as i128, mi as i128, us as i128], vec![]), m);
+                    return;
+                }
+                if i + 40 >= c.len() as u64 || i < 40 {
+                    // both range ends: every combination
+                    for (h, mi) in [(23u32, 59u32), (0, 0), (12, 30), (23, 0)] {
+                        for us in [1_000_000u32, 1_000_001, 1_500_000, 1_999_999] {
+                            st.evaluations += 1;
+                            if let Err(m) = check_now_leap(r.n, h, mi, us) {
+                                st.fail(i, Case::new(P, "now_leap", vec![r.n as i128, h as i128, mi as i128, us as i128], vec![]), m);
+                                return;
+                            }
+                        }
+                    }
+                }
+            }
             if special {
                 if r.d as u32 == month_len(r.y, r.m as u32) {
                     st.class("clock-at-month-end");
@@ -520,7 +597,7 @@ pub fn run(ctx: &Ctx) -> (Stats, Report) {
     let _ = Time::ZERO;
 
     let rep = Report {
-        rule: format!("The injected clock (cargo feature verif-hooks, thread-local) ranges over ALL 3,652,059 possible current local dates x {} time(s) of day (thorough: midnight, 00:00:00.5, 12:34:56.789012, 23:59:59.999999 under every date; quick: one of those five classes incl. 00:00:00.000001 per date, rotating with the date). Under each clock: partial pictures \"\", DD (1, 28..31, month length +-), MM, MM-DD, MON DD, YYYY, YYYY-DD, DDD (incl. 365/366), Y / YY / YYY with value classes (all values for Y/YY in thorough) alone and with month/day, HH24:MI, HH:MI AM with empty text, SS, .FF, DD HH:MI PM, an omission grid (12 time-part pictures in several field orders, meridian before or after the 12-hour field, text ending after every token; also swept exhaustively under 7 clocks), rotated over Date / Timestamp / OracleDate; Date::now, Timestamp::now, OracleDate::now, Timestamp::try_from(Time), OracleDate::try_from(Time). Oracle: model defaults (year and month from the clock, day 1, time 0, 12 for an omitted 12-hour field, short years completed with the leading digits of the clock year) validated by the walked calendar (so DD=31 in a 30-day current month, DDD=366 in a common current year, a completed year 0 are errors). Complete pictures (7 shapes x date pool) must give the identical value under 9 different clocks incl. both range ends. Non-trivial = clock at a month end / year end / century-end year / 29 Feb / year < 1000 / year 9999; distinct by enumeration.", tods.len()),
+        rule: format!("The injected clock (cargo feature verif-hooks, thread-local) ranges over ALL 3,652,059 possible current local dates x {} time(s) of day (thorough: midnight, 00:00:00.5, 12:34:56.789012, 23:59:59.999999 under every date; quick: one of those five classes incl. 00:00:00.000001 per date, rotating with the date). Under each clock: partial pictures \"\", DD (1, 28..31, month length +-), MM, MM-DD, MON DD, YYYY, YYYY-DD, DDD (incl. 365/366), Y / YY / YYY with value classes (all values for Y/YY in thorough) alone and with month/day, HH24:MI, HH:MI AM with empty text, SS, .FF, DD HH:MI PM, an omission grid (12 time-part pictures in several field orders, meridian before or after the 12-hour field, text ending after every token; also swept exhaustively under 7 clocks), rotated over Date / Timestamp / OracleDate; Date::now, Timestamp::now, OracleDate::now, Timestamp::try_from(Time), OracleDate::try_from(Time); the same constructors with the clock inside a leap second (second 59 + 1,000,000..1,999,999 us: an error or an in-range value within those two seconds). Oracle: model defaults (year and month from the clock, day 1, time 0, 12 for an omitted 12-hour field, short years completed with the leading digits of the clock year) validated by the walked calendar (so DD=31 in a 30-day current month, DDD=366 in a common current year, a completed year 0 are errors). Complete pictures (7 shapes x date pool) must give the identical value under 9 different clocks incl. both range ends. Non-trivial = clock at a month end / year end / century-end year / 29 Feb / year < 1000 / year 9999; distinct by enumeration.", tods.len()),
         assumptions: vec!["the hook only replaces the value of chrono::Local::now().naive_local() at the six places the library reads it; with the feature off the code is the original".into()],
         exhaustive: true,
         extra: Default::default(),
